@@ -63,12 +63,50 @@ def extra_hints():
             'Dict[str, TB]': typing.Dict[str, TB], 'Optional[TC]': typing.Optional[TC]}
 
 
+def same_repr_probe():
+    """pairs of distinct hints that print alike (TypeVars / NewTypes / factory-made classes of one name, and
+    subscriptions over them): once the first was wrapped, the wrapper of the second wraps the second, and every
+    answer about the second is the answer about a twin of it that prints differently"""
+    import typing
+
+    def mk(name, base):
+        return type(name, (base,), {})
+    fams = {
+        'TypeVar_bound': lambda name, c: typing.TypeVar(name, bound=c),
+        'NewType': lambda name, c: typing.NewType(name, c),
+        'class': lambda name, c: mk(name, c),
+        'List[TypeVar_bound]': lambda name, c: typing.List[typing.TypeVar(name, bound=c)],
+        'Optional[NewType]': lambda name, c: typing.Optional[typing.NewType(name, c)],
+    }
+    others = [int, str, bool, object, typing.List[int], typing.List[str], typing.Optional[int], typing.Optional[str],
+              typing.Union[int, str]]
+    out = {}
+    for fam, make in fams.items():
+        res = {}
+        try:
+            first, second, twin = make('Same', int), make('Same', str), make('Twin', str)
+            for x in others:
+                sub(first, x), sub(x, first)                      # the history: the first is asked about
+            res['same_repr'] = repr(first) == repr(second)      # a fact about the probe, always expected
+            res['wraps_second'] = TypeHint(second).hint is second
+            res['distinct_wrappers'] = TypeHint(first) is not TypeHint(second)
+            bad = [repr(x) for x in others if sub(second, x) != sub(twin, x) or sub(x, second) != sub(x, twin)]
+            res['answers_like_twin'] = not bad
+            if bad:
+                res['differs_against'] = ', '.join(bad[:4])
+            res['first_vs_second'] = sub(second, first) == sub(twin, first) and sub(first, second) == sub(first, twin)
+        except Exception as e:  # noqa
+            res['error'] = type(e).__name__ + ': ' + str(e)[:200]
+        out['same_repr ' + fam] = res
+    return out
+
+
 def main():
     warnings.simplefilter('ignore')
     payload = json.load(sys.stdin)
     out = []
     if payload.get('extra_coherence'):
-        print(json.dumps([{name: coherence(h) for name, h in extra_hints().items()}]))
+        print(json.dumps([{**{name: coherence(h) for name, h in extra_hints().items()}, **same_repr_probe()}]))
         return
     for case in payload['cases']:
         hs = [U.hint_to_python(h) for h in case['hints']]
